@@ -38,6 +38,7 @@ PLANS = {
             job('life-reentrant', 'life-reentrant', 'C01', {'quick': 4, 'thorough': 5}, {'quick': 1, 'thorough': 2},
                 wit=['reentrant_request', 'reentrant_cancel']),
             job('life-tcp', 'life-tcp', 'C01', {'quick': 4, 'thorough': 5}, {'quick': 1, 'thorough': 2}, wit=['tx_tcp', 'short_write']),
+            job('life-reconf', 'life-reconf', 'C01', {'quick': 4, 'thorough': 5}, 1, wit=['reentrant_set_servers', 'tx_tcp', 'tx_udp']),
             job('opts', 'opts', 'C01', {'quick': 4, 'thorough': 4}, {'quick': 0, 'thorough': 1}, wit=['reentrant_cancel', 'tx_tcp', 'tx_udp']),
         ],
     },
